@@ -1,6 +1,11 @@
 package props
 
-import "encoding/json"
+import (
+	"encoding/json"
+	"time"
+
+	"verif/harness/model"
+)
 
 func jsonMarshal(v interface{}) []byte {
 	b, err := json.Marshal(v)
@@ -11,3 +16,10 @@ func jsonMarshal(v interface{}) []byte {
 }
 
 func jsonUnmarshal(b []byte, v interface{}) error { return json.Unmarshal(b, v) }
+
+func timeKey(t *time.Time) string {
+	if t == nil {
+		return "nil"
+	}
+	return model.KeyTime(*t)
+}
